@@ -1,4 +1,5 @@
 SPECIFICATION TSpec
 CONSTANTS
+  EnumLookup = "value-first"
   Variant = "fixed"
 CONSTRAINT JudgeP
